@@ -38,7 +38,7 @@ def fam_quantizers(fam, rnd):
     return (Qd("quantized_bits", bits=rnd.choice([3, 4, 6]), integer=rnd.choice([0, 1]), symmetric=1, alpha=1.0),
             Qd("quantized_bits", bits=6, integer=2, symmetric=1, alpha=1.0))
   if fam == "po2":
-    return (Qd("quantized_po2", bits=rnd.choice([3, 4]), max_value=rnd.choice([None, 2.0])),
+    return (Qd("quantized_po2", bits=rnd.choice([3, 4, 8]), max_value=rnd.choice([None, 2.0])),
             rnd.choice([Qd("quantized_po2", bits=4), Qd("quantized_relu_po2", bits=4), Qd("quantized_bits", bits=6, integer=2, symmetric=1, alpha=1.0)]))
   if fam in ("auto_po2", "frozen"):
     return (Qd("quantized_bits", bits=rnd.choice([3, 4, 6]), integer=rnd.choice([0, 1]), symmetric=1, alpha="auto_po2"),
